@@ -935,3 +935,95 @@ func ruleAPIWritesNothingSyncReads(c *Ctx, sa *sharedAnalysis, r *Report, rule s
 		r.okNT(rule, "no location written on API goroutines is used by block processing", "-", fmt.Sprintf("%d shared locations examined", len(locs)))
 	}
 }
+
+// ruleNoRecursiveLock: while a function holds a lock of the module (from a Lock/RLock call until the matching Unlock,
+// or until it returns when the unlock is deferred) it calls nothing that acquires the same lock again. A second RLock
+// under a held RLock deadlocks as soon as a writer is waiting between the two, a second Lock always.
+func ruleNoRecursiveLock(c *Ctx, r *Report, rule string, scope map[*ssa.Function]bool) {
+	r.rule(rule, 1, "no lock of the module is acquired again while it is held")
+	isAcq := func(n string) bool {
+		return n == "sync.Mutex.Lock" || n == "sync.RWMutex.Lock" || n == "sync.RWMutex.RLock"
+	}
+	isRel := func(n string) bool {
+		return n == "sync.Mutex.Unlock" || n == "sync.RWMutex.Unlock" || n == "sync.RWMutex.RUnlock"
+	}
+	lockLoc := func(ci ssa.CallInstruction) string {
+		if len(ci.Common().Args) == 0 {
+			return ""
+		}
+		if l := typePath(ci.Common().Args[0]); l != "" {
+			return l
+		}
+		return valuePath(ci.Common().Args[0])
+	}
+	// locks acquired (directly) per function
+	acq := map[*ssa.Function]map[string]bool{}
+	for _, f := range c.Funcs {
+		for _, ci := range callsOf(f) {
+			if isAcq(calleeName(ci.Common())) {
+				if l := lockLoc(ci); l != "" {
+					if acq[f] == nil {
+						acq[f] = map[string]bool{}
+					}
+					acq[f][l] = true
+				}
+			}
+		}
+	}
+	n := 0
+	for _, f := range sortedFuncs(scope) {
+		for _, ci := range callsOf(f) {
+			if _, isDefer := ci.(*ssa.Defer); isDefer || !isAcq(calleeName(ci.Common())) {
+				continue
+			}
+			loc := lockLoc(ci)
+			if loc == "" {
+				continue
+			}
+			n++
+			// release points that are not deferred
+			var rels []ssa.Instruction
+			for _, cj := range callsOf(f) {
+				if _, isDefer := cj.(*ssa.Defer); !isDefer && isRel(calleeName(cj.Common())) && lockLoc(cj) == loc {
+					rels = append(rels, cj)
+				}
+			}
+			bad := ""
+			for _, cj := range callsOf(f) {
+				if cj == ci || !instrReaches(ci, cj) {
+					continue
+				}
+				released := false
+				for _, rl := range rels {
+					if instrDominates(rl, cj) && instrDominates(ci, rl) {
+						released = true
+					}
+				}
+				if released {
+					continue
+				}
+				var targets []*ssa.Function
+				for _, e := range c.CG[f] {
+					if e.Site == ssa.Instruction(cj) {
+						targets = append(targets, e.Callee)
+					}
+				}
+				for _, tg := range targets {
+					all := map[*ssa.Function]bool{tg: true}
+					for g := range c.reach(tg) {
+						all[g] = true
+					}
+					for g := range all {
+						if acq[g][loc] {
+							bad = fmt.Sprintf("%s holds %s (acquired at %s) and calls %s at %s, which reaches %s acquiring it again", fname(f), loc, c.ipos(ci), fname(tg), c.ipos(cj), fname(g))
+						}
+					}
+				}
+			}
+			r.check(bad == "", rule, fmt.Sprintf("%s holds %s", fname(f), loc), c.ipos(ci), "no callee acquires it again while held", bad+": with a writer waiting in between (sync.RWMutex) or always (Mutex) this never returns - block sync or every later request hangs")
+		}
+	}
+	if n == 0 {
+		r.okNT(rule, "no lock acquisition in scope", "-", "")
+	}
+}
